@@ -294,6 +294,53 @@ def lambda_element(lam, facts):
     return (c.kind, member, cls, None)
 
 
+def list_fill(c, stmts_, env, row):
+    """{'mode': 'in-place'|'via-local', 'cleared': bool, 'transfer_guard': formula} for an array-valued case arm."""
+    lam = c.detail or {}
+    local = None
+    for n in ir.walk(lam.get("body") or {}):
+        if n.get("k") == "MCall" and callee_name(n) in ("push_back", "emplace_back", "insert"):
+            p = path(n.get("recv"))
+            if p and len(p) == 1 and p[0].startswith("l:"):
+                local = p[0]
+    info = {"mode": "in-place", "cleared": False, "transfer_guard": None}
+    order = {id(x): i for i, x in enumerate(ir.walk({"k": "Block", "s": stmts_}))}
+    gs = list(ir.guarded_statements({"k": "Block", "s": list(stmts_)}, env))
+    if local is None:
+        member = row.get("member")
+        for st, g, loops in gs:
+            if st.get("k") in ("IfCond", "LoopHead", "SwitchHead"):
+                continue
+            for n in ir.walk(st):
+                if n.get("k") == "MCall" and callee_name(n) == "clear" and not n.get("args"):
+                    p = path(n.get("recv"))
+                    if p and p[0] == "this" and member_of(p) == member and g == ("T",) and order.get(id(n), 0) < order.get(id(c.call), 1 << 30):
+                        info["cleared"] = True
+        return info
+    info["mode"] = "via-local"
+    info["local"] = local
+    for st, g, loops in gs:
+        if st.get("k") in ("IfCond", "LoopHead", "SwitchHead"):
+            continue
+        for n in ir.walk(st):
+            tgt = None
+            if n.get("k") == "MCall" and callee_name(n) == "swap" and n.get("args"):
+                a, b = path(n.get("recv")), path(ir.unwrap_all_casts(n["args"][0]))
+                if a and b and (b == (local,) or a == (local,)):
+                    tgt = a if b == (local,) else b
+            elif n.get("k") == "OpCall" and n.get("op") == "=" and len(n.get("args", [])) == 2:
+                src = ir.unwrap_all_casts(n["args"][1])
+                while isinstance(src, dict) and src.get("k") in ("Call", "Construct") and len(src.get("args", [])) == 1:
+                    src = ir.unwrap_all_casts(src["args"][0])        # std::move(x), copy construction
+                if path(src) == (local,):
+                    tgt = path(n["args"][0])
+            if tgt and tgt[0] == "this" and len(tgt) > 1:
+                row["member"] = member_of(tgt)
+                info["transfer_guard"] = g
+                info["line"] = n.get("l", 0)
+    return info
+
+
 def analyse_full(fn, facts):
     """Full map-reader analysis incl. case rows. Returns MapReader."""
     r = analyse_map_reader(fn, facts)
@@ -415,6 +462,9 @@ def analyse_full(fn, facts):
                         row["elem"], row["member"], row["cls"] = el[0], el[1], el[2]
                         if el[3]:
                             mr.problems.append(("consume", c.line, "case %s: %s" % (lname, el[3])))
+                    # how the decoded list reaches the member: appended in place (after a clear?) or collected in a local
+                    # and handed over afterwards (always, or only under a condition?)
+                    row["list_fill"] = list_fill(c, stmts_, env, row)
                 else:
                     for lp, rhs, node in assignment_targets(stmts_):
                         if contains(rhs, c.call) and lp:
